@@ -60,6 +60,12 @@ M = [
   "                quote.next_id().map(|child_id| {\n                    self.index_node(graph, child_id);\n                });\n", "", {"C05": 1, "C04": 1}),
  ("block_quote_leaves_insert_set", "crates/liwe/src/graph/sections_builder.rs",
   "                self.builder.quote();\n                self.set_lines_range(quote.line_range);", "                self.builder.quote();\n                self.builder.set_insert(true);\n                self.set_lines_range(quote.line_range);", {"C01": 1, "C07": 1}),
+ ("block_list_keeps_insert_set", "crates/liwe/src/graph/sections_builder.rs",
+  "                self.builder.set_id(id);\n                self.builder.set_insert(false);\n            }\n            OrderedList(list) => {", "                self.builder.set_id(id);\n            }\n            OrderedList(list) => {", {"C01": 1, "C07": 1, "C20": 1}),
+ ("block_item_loop_skips_first", "crates/liwe/src/graph/sections_builder.rs",
+  "                self.builder.ordered_list();\n                self.builder.set_insert(true);\n                let id = self.builder.id();\n", "                self.builder.ordered_list();\n                let id = self.builder.id();\n", {"C01": 1, "C20": 1}),
+ ("benign_block_list_local", "crates/liwe/src/graph/sections_builder.rs",
+  "                self.builder.bullet_list();\n                self.builder.set_insert(true);\n                let id = self.builder.id();\n", "                self.builder.bullet_list();\n                let id = self.builder.id();\n                self.builder.set_insert(true);\n", {"C07": 0, "C03": 0}),
  ("update_key_skips_blank", "crates/liwe/src/graph.rs",
   "        self.from_markdown(key, content, MarkdownReader::new());\n\n        self", "        if !content.is_empty() {\n            self.from_markdown(key, content, MarkdownReader::new());\n        }\n\n        self", {"C20": 1, "C04": 1}),
  # benign refactorings: must not alarm
